@@ -225,6 +225,22 @@ def fam_truncation(rng):
     return out
 
 
+def fam_trunc_cancel(rng):
+    """A truncation whose context is cancelled at its k-th inspection (shutdown), for every k until it completes."""
+    out = []
+    chain = [G(), P("N1", "t1", 2), P("N1", "t3", 3), P("N1", "t4", 4), P("N1", "t5", 5), P("N1", "t2", 6), P("N1", "t6", 7)]
+    side = [G(), P("N1", "t1", 2), {"op": "craft", "s": "N2", "t": "t6", "l": 1, "r": 2, "w": 2, "id": 3},
+            P("N1", "t3", 4), D("N1", 3), P("N1", "t5", 5), P("N1", "t4", 6), P("N1", "t2", 7)]
+    for depth in (1, 2, 3):
+        for k in range(1, 15):
+            # on a fresh graph, and after a completed truncation (store and checkpoint not empty)
+            out.append(("single", depth, chain + [{"op": "truncate", "n": "N1", "cancel": k}]))
+            out.append(("single", depth, chain[:5] + [{"op": "truncate", "n": "N1"}] + chain[5:] + [{"op": "truncate", "n": "N1", "cancel": k}]))
+            if k % 2 == 1:
+                out.append(("single", depth, side + [{"op": "truncate", "n": "N1", "cancel": k}]))
+    return out
+
+
 def fam_trunc_race(rng):
     """Balance queries that start in the middle of a truncation (they block on the book lock until it is done)."""
     out = []
@@ -450,7 +466,7 @@ PROPS = {
                 gens=[("single", 0.7), ("twosingle", 0.3)], fams=["concurrent", "truncation"], mc="single"),
     "C06": dict(strict=["Balance", "Wedged"], inv=[], prop=[],
                 gens=[("single", 0.4), ("drain", 0.3), ("twosingle", 0.3)], fams=["truncation", "load"], mc="single"),
-    "C07": dict(strict=["Truncate", "ReadTrx", "ReadVertex", "ProposePre", "DeliverPre", "Balance", "Wedged"],
+    "C07": dict(strict=["Truncate", "TruncateCancelled", "ReadTrx", "ReadVertex", "ProposePre", "DeliverPre", "Balance", "Wedged"],
                 inv=["ReadsOK", "C03_UniqueTrx"], prop=["C07_Transparent"],
                 gens=[("single", 0.5), ("drain", 0.5)], fams=["truncation"], mc="single"),
     "C09": dict(strict=["ProposeCommit", "Genesis", "Wedged"],
@@ -469,7 +485,7 @@ PROPS = {
 }
 
 FAMS = {
-    "truncation": lambda rng, tier: fam_truncation(rng) + fam_drain(rng) + fam_trunc_race(rng),
+    "truncation": lambda rng, tier: fam_truncation(rng) + fam_drain(rng) + fam_trunc_race(rng) + fam_trunc_cancel(rng),
     "concurrent": lambda rng, tier: fam_concurrent(rng),
     "orphans": lambda rng, tier: fam_orphans(rng, 120 if tier == "thorough" else 30),
     "load": lambda rng, tier: fam_load(rng),
